@@ -167,3 +167,17 @@ theorem LB_count (p : ℕ → Prop) [DecidablePred p] (n d : ℕ) (_hd : d ≤ n
     · rintro ⟨hdk, hk⟩
       exact ⟨hk, hhi k hdk hk⟩
   rw [hset, Nat.card_Ico]
+
+/-! The order axioms under which `contracts/truncation.py` abstracts products of two unknown reals
+    (`real_mul`, `real_square`) are facts of real multiplication. -/
+theorem AX_mul_comm (x y : ℝ) : x * y = y * x := mul_comm x y
+
+theorem AX_mul_mono (x y z : ℝ) (h : x ≤ y) (hz : 0 ≤ z) : x * z ≤ y * z :=
+  mul_le_mul_of_nonneg_right h hz
+
+theorem AX_mul_nonneg (x y : ℝ) (hx : 0 ≤ x) (hy : 0 ≤ y) : 0 ≤ x * y := mul_nonneg hx hy
+
+theorem AX_sq_nonneg (x : ℝ) : 0 ≤ x * x := mul_self_nonneg x
+
+theorem AX_sq_mono (x y : ℝ) (hx : 0 ≤ x) (h : x ≤ y) : x * x ≤ y * y :=
+  mul_le_mul h h hx (le_trans hx h)
